@@ -80,6 +80,20 @@ def state_writes(ctx, funcs: List[FuncInfo], exempt=("store",)):
                     if hit is not None:
                         out.append((fi, hit, f"default value of parameter `{p}`", "default"))
                         break
+        # a dict parameter used as a cache handed down through the calls (read with .get / in / [] and filled in the same function)
+        for p in fi.params:
+            if fi.cls is not None and p == fi.params[0] and fi.kind in ("method", "class"):
+                continue
+            reads = any((isinstance(n, ast.Call) and isinstance(n.func, ast.Attribute) and n.func.attr == "get" and isinstance(n.func.value, ast.Name) and n.func.value.id == p)
+                        or (isinstance(n, ast.Compare) and isinstance(n.ops[0], (ast.In, ast.NotIn)) and isinstance(n.comparators[0], ast.Name) and n.comparators[0].id == p)
+                        for n in ast.walk(fi.node))
+            if not reads:
+                continue
+            for n in ast.walk(fi.node):
+                if isinstance(n, ast.Assign):
+                    for t in n.targets:
+                        if isinstance(t, ast.Subscript) and isinstance(t.value, ast.Name) and t.value.id == p:
+                            out.append((fi, n, f"parameter `{p}`", "param-item"))
         for n in ast.walk(fi.node):
             if isinstance(n, (ast.Assign, ast.AugAssign)):
                 for t in (n.targets if isinstance(n, ast.Assign) else [n.target]):
@@ -156,6 +170,51 @@ def check_slice(ctx, rep, rule: str, funcs: List[FuncInfo], what: str, exempt=("
                 rep.oblige((rule, q, cont), False)
                 rep.add(rule, q, n, f"the mutable {cont} is created once and is changed / handed on / returned here: what one call puts into it is "
                         f"still there in the next call ({what} then depends on what was processed before)", fi.loc(n))
+                continue
+            if kind == "param-item":
+                t = [t for t in n.targets if isinstance(t, ast.Subscript)][0]
+                key_e, val_e = t.slice, n.value
+                pname = t.value.id
+                vd = dep_of(val_e) - {pname}
+                kd = {x.id for x in ([key_e] if isinstance(key_e, ast.Name) else key_e.elts if isinstance(key_e, ast.Tuple) else []) if isinstance(x, ast.Name)}
+                kd_params = set()
+                for x in kd:
+                    kd_params |= deps.get(x, {x} if x in fi.params else set())
+                # variable-level: what the stored value is computed from (following locals to their definitions, never through the
+                # key's own names or the cache) must be the key's names
+                local_defs = {}
+                for a_ in ast.walk(fi.node):
+                    if isinstance(a_, ast.Assign):
+                        for t_ in a_.targets:
+                            if isinstance(t_, ast.Name):
+                                local_defs.setdefault(t_.id, []).append(a_.value)
+                bound_here = set(local_defs) | set(fi.params) | {x.id for lp_ in ast.walk(fi.node) if isinstance(lp_, ast.For) for x in ast.walk(lp_.target) if isinstance(x, ast.Name)}
+                frontier = {x.id for x in ast.walk(val_e) if isinstance(x, ast.Name)}
+                seen_, basis = set(), set()
+                for _ in range(4):
+                    nxt = set()
+                    for v_ in frontier:
+                        if v_ in seen_ or v_ == pname:
+                            continue
+                        seen_.add(v_)
+                        if v_ in kd:
+                            continue
+                        if v_ in local_defs and v_ not in fi.params:
+                            for rhs in local_defs[v_]:
+                                if isinstance(rhs, ast.Call) and isinstance(rhs.func, ast.Attribute) and isinstance(rhs.func.value, ast.Name) and rhs.func.value.id == pname:
+                                    continue   # read back from the cache itself
+                                nxt |= {x.id for x in ast.walk(rhs) if isinstance(x, ast.Name)}
+                        elif v_ in bound_here:
+                            basis.add(v_)
+                    frontier = nxt
+                basis |= {v_ for v_ in frontier if v_ in bound_here and v_ not in kd and v_ != pname}
+                missing = {m for m in vd - kd_params - kd if m in fi.params} | (basis - kd)
+                ok = not missing
+                rep.oblige((rule, q, cont, "key"), ok, sample={"cache parameter": pname, "key": norm(key_e), "value depends on": sorted(vd), "key covers": sorted(kd_params | kd)})
+                if not ok:
+                    rep.add(rule, q, n, f"the cache handed down in `{pname}` is filled under the key `{norm(key_e)}`, but the stored value also depends on "
+                            f"{', '.join('`' + m + '`' for m in sorted(missing))}: a later call with the same key and a different "
+                            f"{'/'.join(sorted(missing))} gets a stale answer", fi.loc(n))
                 continue
             if kind != "item":
                 rep.oblige((rule, q, cont, getattr(n, "lineno", 0)), False)
